@@ -268,7 +268,7 @@ def check_jar_path(W, rec, path, value):
             rec.violation("C13/client-jar-path-scope-ignored", f"cookie with Path={path!r} was sent to /elsewhere", case, monitor="roundtrip")
 
 
-JAR_DOMAINS = [("example.com", "example.com"), ("example.com", "Example.COM"), ("b\u00fccher.example", "b\u00fccher.example"), ("xn--bcher-kva.example", "b\u00fccher.example"),
+JAR_DOMAINS = [("api.localhost", "localhost"), ("wiki.intranet", "intranet"), ("localhost", "localhost"), ("example.com", "example.com"), ("example.com", "Example.COM"), ("b\u00fccher.example", "b\u00fccher.example"), ("xn--bcher-kva.example", "b\u00fccher.example"),
                ("b\u00fccher.example", "xn--bcher-kva.example"), ("shop.example.com", "example.com"), ("shop.b\u00fccher.example", ".b\u00fccher.example"), ("example.com:8080", "example.com"),
                ("m\u00fcnchen:5000", "m\u00fcnchen:5000"), ("\u043f\u0440\u0438\u043c\u0435\u0440.\u0440\u0444:8080", "\u043f\u0440\u0438\u043c\u0435\u0440.\u0440\u0444:8080")]
 
@@ -288,7 +288,10 @@ def check_jar_domain(W, rec, host, domain, value):
         seen[request.path] = request.cookies.to_dict()
         resp = Response("ok")
         if request.path == "/set":
-            resp.set_cookie("k", value, domain=domain)
+            # (the jar matches on domain and path: whether a cookie is marked Secure, HttpOnly or Partitioned does not
+            # decide whether the test client sends it back - its requests are http://localhost/ by default)
+            flags = ({}, {"secure": True}, {"httponly": True}, {"partitioned": True}, {"secure": True, "samesite": "None"})[(len(value) + len(host)) % 5]
+            resp.set_cookie("k", value, domain=domain, **flags)
         return resp
 
     with rec.guard(case, "C13"):
